@@ -79,16 +79,16 @@ MUTANTS = [
     M("c12-refactor-ema-form", "C12", "refactor", [(CAL, "return momentum * scale + new_scale * (1.0 - momentum)", "return new_scale + momentum * (scale - new_scale)")]),
     M("c12-refactor-local-momentum", "C12", "refactor", [(CAL, "                input_scale = absmax_scale(input, module.activation_qtype)\n                module.input_scale = _updated_scale(module.input_scale, input_scale, self.momentum)", "                m = self.momentum\n                input_scale = absmax_scale(input, module.activation_qtype)\n                module.input_scale = _updated_scale(module.input_scale, input_scale, m)")]),
     # ---------------- C13
-    M("c13-exit-skips-on-exception", "C13", "break", [(CAL, "        self.pre_handle.remove()\n        self.post_handle.remove()", "        if exc_type is None:\n            self.pre_handle.remove()\n            self.post_handle.remove()")], "C13.R1"),
-    M("c13-exit-one-handle", "C13", "break", [(CAL, "        self.pre_handle.remove()\n        self.post_handle.remove()", "        self.pre_handle.remove()")], "C13.R1"),
+    M("c13-exit-skips-on-exception", "C13", "break", [(CAL, "        for handle in self.hook_handles.pop():\n            handle.remove()", "        if exc_type is None:\n            for handle in self.hook_handles.pop():\n                handle.remove()")], "C13.R1"),
+    M("c13-exit-one-handle", "C13", "break", [(CAL, "        for handle in self.hook_handles.pop():\n            handle.remove()", "        self.hook_handles.pop()[0].remove()")], "C13.R1"),
     M("c13-exit-no-super", "C13", "break", [(CAL, "        super().__exit__(exc_type, exc_val, exc_tb)\n", "")], "C13.R1"),
-    M("c13-enter-handle-dropped", "C13", "break", [(CAL, "        self.post_handle = register_module_forward_hook(self.calibrate_output)", "        register_module_forward_hook(self.calibrate_output)")], "C13.R1"),
+    M("c13-enter-handle-dropped", "C13", "break", [(CAL, "        self.hook_handles.append(\n            (\n                register_module_forward_pre_hook(self.calibrate_input),\n                register_module_forward_hook(self.calibrate_output),\n            )\n        )", "        self.hook_handles.append((register_module_forward_pre_hook(self.calibrate_input),))\n        register_module_forward_hook(self.calibrate_output)")], "C13.R1"),
     M("c13-forward-writes-scale", "C13", "break", [(QMOD, "        output = self.qforward(input)\n", "        output = self.qforward(input)\n        if self.activation_qtype is not None and torch.all(self.output_scale == 1):\n            self.output_scale = output.abs().max() / 127\n")], "C13.R3"),
     M("c13-qweight-cached", "C13", "break", [(QMOD, "        # Quantize dynamically the weights per-axis\n        return quantize_weight(", "        # Quantize dynamically the weights per-axis\n        self._qweight_cache = None\n        return quantize_weight(")], "C13.R3"),
     M("c13-quantizer-inplace-base", "C13", "break", [("optimum/quanto/tensor/quantizers/symmetric.py", "        data = torch.nan_to_num(base / scale, nan=0.0)", "        data = torch.nan_to_num(base.div_(scale), nan=0.0)")], None),
     M("c13-disable-ext-no-finally", "C13", "break", [(LIBOPS, "    try:\n        global _ext_enabled\n        _ext_enabled = False\n        yield\n    finally:\n        _ext_enabled = True", "    global _ext_enabled\n    _ext_enabled = False\n    yield\n    _ext_enabled = True")], "C13.R5"),
     M("c13-hook-registered-elsewhere", "C13", "break", [(CAL, "    def __exit__(self, exc_type, exc_val, exc_tb):", "    def track(self):\n        self.extra = register_module_forward_hook(self.calibrate_output)\n\n    def __exit__(self, exc_type, exc_val, exc_tb):")], "C13.R2"),
     M("c13-absmax-inplace", "C13", "break", [("optimum/quanto/tensor/optimizers/absmax_optimizer.py", "        base = torch.abs(base)\n", "        base = base.abs_()\n")], "C13.R4"),
-    M("c13-refactor-exit-try-finally", "C13", "refactor", [(CAL, "        super().__exit__(exc_type, exc_val, exc_tb)\n        self.pre_handle.remove()\n        self.post_handle.remove()", "        try:\n            super().__exit__(exc_type, exc_val, exc_tb)\n        finally:\n            self.pre_handle.remove()\n            self.post_handle.remove()")]),
+    M("c13-refactor-exit-try-finally", "C13", "refactor", [(CAL, "        super().__exit__(exc_type, exc_val, exc_tb)\n        for handle in self.hook_handles.pop():\n            handle.remove()", "        try:\n            super().__exit__(exc_type, exc_val, exc_tb)\n        finally:\n            for handle in self.hook_handles.pop():\n                handle.remove()")]),
     M("c13-refactor-forward-local", "C13", "refactor", [(QMOD, "        output = self.qforward(input)\n", "        result = self.qforward(input)\n        output = result\n")]),
 ]
